@@ -197,6 +197,22 @@ func runC01(c *eng.Ctx) {
 		for i, r := range eng.SuccessReturns(f) {
 			for j, w := range ws {
 				ok, why := eng.OkDominates(f, w.Instr, r)
+				if g := w.Instr.Parent(); g != f {
+					// the write lies in a helper Close enters: inside the helper success needs the write, and Close's success
+					// needs the helper's
+					ok, why = true, ""
+					for _, gr := range eng.SuccessReturns(g) {
+						if o, y := eng.OkDominates(g, w.Instr, gr); !o {
+							ok, why = false, "in "+p.FuncKey(g)+": "+y
+						}
+					}
+					top := eng.TopOf(f, w)
+					if top == nil {
+						ok, why = false, "the helper is entered at several sites"
+					} else if o, y := eng.OkDominates(f, top, r); !o {
+						ok, why = false, y
+					}
+				}
 				c.Check(ok, fmt.Sprintf("success-only-if-written[%d,%d]", i, j), w.Instr, f, "Close returns success only when every footer write succeeded", why)
 			}
 		}
